@@ -437,6 +437,9 @@ class Exec:
         if len(comp.generators) != 1 or comp.generators[0].is_async:
             raise Unsupported("nested comprehension")
         g = comp.generators[0]
+        if isinstance(g.iter, ast.Call) and isinstance(g.iter.func, ast.Name) and g.iter.func.id == "zip" and "zip" not in st.env \
+                and len(g.iter.args) == 2 and not g.iter.keywords and mode in ("all", "any") and not g.ifs:
+            return self.comp_fold_zip(comp, st, mode)
         it = self.iter_value(g.iter, st)
         if isinstance(it, PyTup):
             vals = []
@@ -529,6 +532,42 @@ class Exec:
         finally:
             self.ctx.spec_mode = old_spec
         raise Unsupported("comprehension mode %s" % mode)
+
+    def comp_fold_zip(self, comp, st, mode):
+        """all(E for x in zip(A, B)) / any(...) over two sequences: pairwise, up to the shorter one"""
+        g = comp.generators[0]
+        a = lift(self.ev(g.iter.args[0], st))
+        b = lift(self.ev(g.iter.args[1], st))
+        if not (isinstance(a, V) and isinstance(b, V) and isinstance(a.ty, SeqT) and isinstance(b.ty, SeqT)):
+            raise Unsupported("comprehension over zip of %r, %r" % (a, b))
+        used = {n.id for n in ast.walk(comp.elt) if isinstance(n, ast.Name)}
+        tnames = {n.id for n in ast.walk(g.target) if isinstance(n, ast.Name)}
+        free = [(n, st.env[n]) for n in sorted(used & set(st.env)) if n not in tnames and isinstance(st.env[n], V) and st.env[n].ty is not NONE]
+        import hashlib as _h
+        sig = "zip|%s|%s|%s|%s|%s|%s" % (mode, ast.unparse(comp.elt), ast.unparse(g.target), a.ty.name, b.ty.name, [(n, v.ty.name) for n, v in free])
+        fname = "compz_" + _h.md5(sig.encode()).hexdigest()[:10]
+        if fname not in _comp_cache:
+            pa, pb = z3.Const(fname + "_a", a.ty.sort()), z3.Const(fname + "_b", b.ty.sort())
+            fps = [z3.Const(fname + "_" + n, v.ty.sort()) for n, v in free]
+            sub = State({n: V(v.ty, p) for (n, v), p in zip(free, fps)})
+            for n, v in st.env.items():
+                if n not in sub.env and not isinstance(v, V):
+                    sub.env[n] = v
+            self.bind_target(g.target, PyTup([V(a.ty.elem, pa[0]), V(b.ty.elem, pb[0])]), sub)
+            old_spec = self.ctx.spec_mode
+            self.ctx.spec_mode = True
+            try:
+                e = truthy(self.ev(comp.elt, sub))
+            finally:
+                self.ctx.spec_mode = old_spec
+            f = rec_function(fname, *([pa.sort(), pb.sort()] + [p.sort() for p in fps] + [z3.BoolSort()]))
+            nonempty = z3.And(z3.Length(pa) > 0, z3.Length(pb) > 0)
+            rec = f(*([z3.SubSeq(pa, 1, z3.Length(pa) - 1), z3.SubSeq(pb, 1, z3.Length(pb) - 1)] + fps))
+            body = z3.If(nonempty, z3.And(e, rec), True) if mode == "all" else z3.If(nonempty, z3.Or(e, rec), False)
+            add_definition(f, [pa, pb] + fps, body)
+            _comp_cache[fname] = (f, BOOL)
+        f, _ = _comp_cache[fname]
+        return V(BOOL, f(*([a.t, b.t] + [v.t for _, v in free])))
 
     def ev_ListComp(self, node, st):
         return self.comp_fold(node, st, "list")
@@ -1063,6 +1102,14 @@ def _b_len(ex, args, kwargs, st, node):
 def _b_all_any(mode):
     def call(ex, node, st):
         a = node.args[0]
+        if isinstance(a, ast.Call) and isinstance(a.func, ast.Name) and a.func.id == "map" and "map" not in st.env and len(a.args) == 2 \
+                and isinstance(a.args[0], ast.Lambda) and len(a.args[0].args.args) == 1 and not a.args[0].args.defaults:
+            # all(map(lambda x: E, xs)) == all(E for x in xs)
+            lam = a.args[0]
+            a = ast.GeneratorExp(elt=lam.body, generators=[ast.comprehension(
+                target=ast.Name(id=lam.args.args[0].arg, ctx=ast.Store()), iter=a.args[1], ifs=[], is_async=0)])
+            ast.copy_location(a, node)
+            ast.fix_missing_locations(a)
         if isinstance(a, (ast.GeneratorExp, ast.ListComp)):
             return ex.comp_fold(a, st, mode)
         v = lift(ex.ev(a, st))
@@ -1106,7 +1153,13 @@ def seq_bool_fold(mode):
 
 def _b_isinstance(ex, args, kwargs, st, node):
     v, k = lift(args[0]), args[1]
+    if isinstance(k, PyTup):
+        # isinstance(x, (A, B)): any of the kinds
+        parts = [truthy(_b_isinstance(ex, [v, kk], kwargs, st, node)) for kk in k.items]
+        return V(BOOL, z3.simplify(z3.Or(*parts)) if parts else z3.BoolVal(False))
     kind = k.name if isinstance(k, (PyConstObj, PyFn)) else None
+    if kind in ("odict", "OrderedDict"):
+        kind = "dict"
     if isinstance(v, V) and isinstance(v.ty, UnionT):
         kinds = getattr(v.ty, "pykinds", {})
         if kind in kinds:
